@@ -2,7 +2,7 @@ SPECIFICATION Spec
 CONSTANT N = 4
 CONSTANT Gen = FALSE
 CONSTANT KMin = 0
-CONSTANT KMax = 7
+CONSTANT KMax = 6
 CONSTANT InputPhase = FALSE
 CHECK_DEADLOCK FALSE
 INVARIANT TypeOK
